@@ -2300,7 +2300,7 @@ impl InferContext {
                 // this is because we can not infer the number of fields in the tuple from the fields access expression.
                 // This rule will be loosened when structural subtyping is implemented.
                 let vec_to_ans = |vec: &[_]| {
-                    if vec.len() < *idx as usize {
+                    if vec.len() <= *idx as usize {
                         Err(vec![Error::IndexOutOfRange {
                             len: vec.len() as u16,
                             idx: *idx as u16,
